@@ -91,7 +91,10 @@ func runC20(cfg *runCfg) error {
 	}
 	id := 0
 	invalid := 0
-	for i := 0; (cfg.Replay == "" && i < n) || (cfg.Replay != "" && i < len(cases)); i++ {
+	// a planner that does not return keeps its goroutine (and its memory) growing: the first hang is
+	// recorded and ends the generation
+	stop := false
+	for i := 0; !stop && ((cfg.Replay == "" && i < n) || (cfg.Replay != "" && i < len(cases))); i++ {
 		var cs *c20Case
 		var fed *Fed
 		var st *Store
@@ -113,7 +116,7 @@ func runC20(cfg *runCfg) error {
 		if cfg.Replay != "" {
 			nq = 1
 		}
-		for qi := 0; qi < nq; qi++ {
+		for qi := 0; qi < nq && !stop; qi++ {
 			q := cs.Query
 			if cfg.Replay == "" {
 				q = genQuery(r, cs.Fed, st, c20Knobs(r))
@@ -127,7 +130,11 @@ func runC20(cfg *runCfg) error {
 				}
 				continue
 			}
-			plans, class, note := planWatch(fed, q.Text, 5*time.Second)
+			plans, class, note := planWatch(fed, q.Text, 2*time.Second)
+			if class == "hang" {
+				stop = true
+				doc.Notes = append(doc.Notes, "generation stopped at the first planning that did not return")
+			}
 			for k, v := range q.Feats {
 				doc.Dist["feature:"+k] += v
 			}
